@@ -231,6 +231,8 @@ func runC09(c *core.Ctx) {
 	}
 
 	// ------------------------------------------------------------ Go representation and IDL name
+	c.Doc("C09.go-fields", "the Go representation of a struct or tuple names each field after the member it stands for", 2)
+	ruleStructGoFieldNames(c, "C09.go-fields")
 	c.Doc("C09.constructors", "each constructor's Go type, IDL name and reader agree with its signature letter; derived types use one signature string", 11)
 	ruleConstructorsAs(c, derivePrims(c), "C09.constructors")
 
